@@ -246,7 +246,9 @@ def session_histories(ctx) -> list:
     # an ordinary exception while another submission completes inside its window
     steps += [["refused"]] + [["fail", i, "failing", [["ok", j, n]]] for i in (0, 1) for j in (0, 1) for n in ("s1", "s2")]
     cases = []
-    for h in itertools.product(steps, repeat=L):
+    enum = itertools.product(steps, repeat=L) if L <= 4 else itertools.chain(
+        itertools.product(steps[:9], repeat=5), (h for h in itertools.product(steps, repeat=4) if any(st[0] in ("refused", "fail") for st in h)))
+    for h in enum:
         n_s, ok = 1, True
         n_special = 0
         for st in h:
@@ -262,8 +264,8 @@ def session_histories(ctx) -> list:
             elif st[1] >= n_s:
                 ok = False
                 break
-        if n_special > 1:
-            ok = False                 # at most one of the two special steps per enumerated history (keeps the layer small)
+        if n_special > (1 if len(h) <= 4 else 0):
+            ok = False                 # at most one of the two special steps per enumerated history, none at length 5 (keeps the layer small)
         if ok:
             cases.append({"history_case": True, "subjects": ["s1", "s2"], "history": json.loads(json.dumps(list(h))), "file": "a.tsv", "sibling": "b.tsv"})
     n_enum = len(cases)
